@@ -196,6 +196,33 @@ func (f File) Validate() error {
 			allOpCodes[un.OpCode] = un.Name
 		}
 	}
+	// The struct or message of a union branch becomes a Go type of its own: its name and its
+	// field names are held to the same rules as those of a top level definition.
+	branchNames := map[string]struct{}{}
+	for _, un := range f.Unions {
+		for _, ufd := range un.Fields {
+			name := ufd.name()
+			if un.Namespace == "" {
+				if _, ok := primitiveTypes[name]; ok {
+					return fmt.Errorf("union %s branch shares primitive type name %s", un.Name, name)
+				}
+				if _, ok := customTypes[name]; ok {
+					return fmt.Errorf("union %s branch has duplicated name %s", un.Name, name)
+				}
+				if _, ok := branchNames[name]; ok {
+					return fmt.Errorf("union %s branch has duplicated name %s", un.Name, name)
+				}
+				branchNames[name] = struct{}{}
+			}
+			fdNames := map[string]struct{}{}
+			for _, fd := range ufd.fields() {
+				if _, ok := fdNames[fd.Name]; ok {
+					return fmt.Errorf("union %s branch %s has duplicate field name %s", un.Name, name, fd.Name)
+				}
+				fdNames[fd.Name] = struct{}{}
+			}
+		}
+	}
 	allTypes := customTypes
 	for typ := range primitiveTypes {
 		allTypes[typ] = struct{}{}
